@@ -46,7 +46,7 @@ def CInv (s : St) : Prop :=
   adds s.posted = 1 ∧
   s.kC ≠ .want
 
-theorem cinv_init : CInv init := by simp [CInv, init, removes, adds]
+theorem cinv_init (t : Nat) : CInv (initAt t) := by simp [CInv, initAt, removes, adds]
 
 set_option hygiene false in
 macro "step_cases" : tactic => `(tactic| (
@@ -83,7 +83,7 @@ def EInv (s : St) : Prop :=
   ((s.wr = .done ∨ (s.wr = .dfr ∧ s.wrC = .out)) → s.connCloses = 1) ∧
   (s.hb = .done → s.closed = true)
 
-theorem einv_init : EInv init := by simp [EInv, init]
+theorem einv_init (t : Nat) : EInv (initAt t) := by simp [EInv, initAt]
 
 theorem einv_step (s s' : St) (l : Lbl) (hc : CInv s) (h : EInv s) (hf : fire true s l = some s') : EInv s' := by
   obtain ⟨status, closed, mutex, cc, posted, sendq, writes, now, lastHb, tickAt, rd, rdC, wr, wrC, hb, hbC, kWant, kC, arrived⟩ := s
@@ -98,7 +98,7 @@ theorem einv_step (s s' : St) (l : Lbl) (hc : CInv s) (h : EInv s) (hf : fire tr
 is a subsequence of what arrived -/
 def JInv (s : St) : Prop := List.Sublist (msgsOf s.posted ++ pendMids s.rd) s.arrived
 
-theorem jinv_init : JInv init := by simp [JInv, init, msgsOf, pendMids]
+theorem jinv_init (t : Nat) : JInv (initAt t) := by simp [JInv, initAt, msgsOf, pendMids]
 
 theorem sub_drop {a p c : List Nat} (h : List.Sublist (a ++ p) c) : List.Sublist (a ++ []) c := by
   simpa using (List.sublist_append_left a p).trans h
@@ -123,7 +123,7 @@ theorem jinv_step (fx : Bool) (s s' : St) (l : Lbl) (h : JInv s) (hf : fire fx s
 /-- the first post is the session-add -/
 def HInv (s : St) : Prop := ∃ r, s.posted = .add :: r
 
-theorem hinv_init : HInv init := ⟨[], rfl⟩
+theorem hinv_init (t : Nat) : HInv (initAt t) := ⟨[], rfl⟩
 
 theorem hinv_step (fx : Bool) (s s' : St) (l : Lbl) (h : HInv s) (hf : fire fx s l = some s') : HInv s' := by
   obtain ⟨status, closed, mutex, cc, posted, sendq, writes, now, lastHb, tickAt, rd, rdC, wr, wrC, hb, hbC, kWant, kC, arrived⟩ := s
@@ -251,5 +251,29 @@ theorem stuck_shape (s : St) (hc : CInv s) (he : EInv s) (hs : stuck true s = tr
       · rcases hhb with ⟨_, _, hx⟩ | hh
         · cases hx
         · exact ⟨rfl, h2, by omega, hr, hw, hh⟩
+
+/-! ### along a whole schedule -/
+
+theorem jh_run (fx : Bool) (ls : List Lbl) :
+    ∀ (s s' : St), JInv s → HInv s → runL fx s ls = some s' → JInv s' ∧ HInv s' := by
+  induction ls with
+  | nil => intro s s' hj hh hr; simp [runL] at hr; subst hr; exact ⟨hj, hh⟩
+  | cons l ls ih =>
+    intro s s' hj hh hr
+    simp only [runL] at hr
+    cases hf : fire fx s l with
+    | none => simp [hf] at hr
+    | some s1 => simp only [hf] at hr; exact ih s1 s' (jinv_step fx s s1 l hj hf) (hinv_step fx s s1 l hh hf) hr
+
+theorem einv_run (ls : List Lbl) :
+    ∀ (s s' : St), CInv s → EInv s → runL true s ls = some s' → EInv s' := by
+  induction ls with
+  | nil => intro s s' _ he hr; simp [runL] at hr; subst hr; exact he
+  | cons l ls ih =>
+    intro s s' hc he hr
+    simp only [runL] at hr
+    cases hf : fire true s l with
+    | none => simp [hf] at hr
+    | some s1 => simp only [hf] at hr; exact ih s1 s' (cinv_step true s s1 l hc hf) (einv_step s s1 l hc he hf) hr
 
 end Cell2v.Session
